@@ -197,6 +197,7 @@ def _bounds(tier, n):
         "values": "all in-range values (symbolic): ints over their whole range, floats as arbitrary bit patterns "
                   "(f32: no signalling NaN), string bytes 0..127",
         "int_model_bits": W,
+        "max_signed_leaves_per_instance": 8,
         "outside": "shapes not generated, lengths beyond the patterns",
     }
 
